@@ -181,3 +181,43 @@ Example C18_hc_chain_nonvacuous :
   ctrace (ex_m, ex_cc0) ex_cops =
   [Some (81, 0); Some (20, 78); Some (18, 63); Some (0, 0); Some (100, 0); Some (27, 78); Some (8, 7); Some (0, 78); Some (0, 0); Some (73, 78)].
 Proof. exact (conj ex_cstate (conj ex_cstream_pre ex_ctrace)). Qed.
+
+(* ================================================================ HC, levels 10..12 (optimal parser; instance for levels 3..12)
+   - C18_hc_opt_reuse / _step: [tstate_inv] (= the invariant of the hash-chain levels on the context with favorDecSpeed) is
+     established by LZ4_initStreamHC and preserved by EVERY modelled operation of ANY history that stays in the model, now
+     including level changes across the strategies hash chain <-> optimal parser and LZ4_favorDecompressionSpeed.
+   - C18_hc_opt_fastReset, C18_hc_opt_history: as for the hash-chain levels. *)
+From LZ4V Require Import Model.HcOpt Model.HcOptApi Model.HcTabStream Model.HcOptStream Proofs.HcTabStreamProofs Proofs.HcOptStreamProofs Proofs.HcOptStreamExamples.
+
+Theorem C18_hc_opt_reuse :
+  forall ops st st', tstate_inv st -> tops_pre blk_all lvl_all st ops -> trun blk_all lvl_all st ops = Some st' -> tstate_inv st'.
+Proof. exact os_inv_run. Qed.
+Print Assumptions C18_hc_opt_reuse.
+
+Theorem C18_hc_opt_step :
+  forall st o st' x, tstate_inv st -> top_pre st o -> ostep st o = Some (st', x) -> tstate_inv st'.
+Proof. exact ostep_inv. Qed.
+Print Assumptions C18_hc_opt_step.
+
+Theorem C18_hc_opt_fastReset :
+  forall m c src n cap level ret consumed out hw c',
+  hmem_ok m -> ts_ok c -> 0 < src -> 0 <= n < 2147483648 -> 0 <= cap ->
+  os_fastReset m c src n cap level = Some (TRes ret consumed out hw c') ->
+  let lim := if cap <? compressBound n then LimitedOutput else NotLimited in
+  let ke := k_init_internal (ts_core (ts_resetFast c level)) src in
+  k_ready ke src /\ k_lowLimit ke = k_dictLimit ke /\ k_endIdx ke = k_dictLimit ke /\
+  tcall_post m ke src n cap lim ret consumed out hw c'.
+Proof. exact os_fastReset_sound. Qed.
+Print Assumptions C18_hc_opt_fastReset.
+
+Theorem C18_hc_opt_history :
+  forall ops st H, tstate_inv st -> tstream_pre blk_all lvl_all st H ops -> tstream_claim blk_all lvl_all st H ops.
+Proof. exact os_stream_roundtrip. Qed.
+Print Assumptions C18_hc_opt_history.
+
+Example C18_hc_opt_nonvacuous :
+  tstate_inv (ex_m, ex_oc0) /\ tstream_pre blk_all lvl_all (ex_m, ex_oc0) [] ex_oops /\
+  otrace (ex_m, ex_oc0) ex_oops =
+  [Some (81, 0); Some (20, 78); Some (18, 63); Some (0, 0); Some (100, 0); Some (27, 78); Some (0, 0); Some (0, 0); Some (8, 7); Some (0, 78);
+   Some (0, 0); Some (73, 78)].
+Proof. exact (conj ex_ostate (conj ex_ostream_pre ex_otrace)). Qed.
